@@ -6,6 +6,7 @@
 open Vx
 open Base
 open C12Model
+open C12Sidx
 
 let kind_of_char c =
   match c with
@@ -32,16 +33,24 @@ let parse_traf s =
       t_truns = L.map (fun tr -> L.map n_of_hex (split_nonempty '.' tr)) (split_nonempty '/' truns) }
   | _ -> failwith ("bad traf " ^ s)
 
+let parse_trak s =
+  match split_on ':' s with
+  | [id; h; ts; trex] ->
+    { k_id = n_of_hex id; k_handler = n_of_int (int_of_string h); k_timescale = n_of_hex ts; k_trex = (trex = "1") }
+  | _ -> failwith ("bad trak " ^ s)
+
 (* returns (box, class) *)
 let parse_box (tag : int) (s : string) : topbox * int =
   match split_on '|' s with
-  | [head; refs; tfras; trafs] ->
+  | [head; refs; tfras; trafs; traks] ->
     (match split_on ',' head with
-     | [k; size; hdr; fo; stts; mfro; cls] ->
+     | [k; size; hdr; fo; stts; mfro; cls; ver] ->
        ({ b_kind = kind_of_char k.[0]; b_tag = n_of_int tag; b_size = n_of_hex size; b_hdr = n_of_hex hdr;
           b_first_offset = n_of_hex fo; b_refs = L.map parse_ref (split_nonempty '+' refs);
           b_stts_empty = (stts = "1"); b_tfras = L.map parse_tfra (split_nonempty '+' tfras);
-          b_mfro = (mfro = "1"); b_trafs = L.map parse_traf (split_nonempty '+' trafs) },
+          b_mfro = (mfro = "1"); b_trafs = L.map parse_traf (split_nonempty '+' trafs);
+          b_traks = L.map parse_trak (split_nonempty '+' traks); b_version = n_of_int (int_of_string ver);
+          b_refid = N0; b_timescale = N0; b_ept = N0 },
         int_of_string cls)
      | _ -> failwith ("bad box head " ^ head))
   | _ -> failwith ("bad box " ^ s)
@@ -97,4 +106,38 @@ let () =
           | _ -> ("-", "-") in
         if mcls = cls && mpart = part && menc = enc then Printf.printf "OK %s\n" id
         else Printf.printf "MISMATCH %s assemble model_class=%s model_part=%s model_enc=%s\n" id mcls mpart menc
+      | ["U"; id; fl; boxes; an; obs] ->
+        let (bs, _) = parse_boxes boxes in
+        let newtag = L.length bs in
+        let kind_char k = match k with
+          | KFtyp -> 'f' | KStyp -> 's' | KMoov -> 'v' | KSidx -> 'x' | KMoof -> 'o'
+          | KMdat -> 'd' | KEmsg -> 'e' | KMfra -> 'r' | KOther -> 'z' in
+        let m =
+          match assemble (opts_of fl) bs with
+          | Ok f ->
+            (match update_sidx f (an.[0] = '1') (an.[1] = '1') (n_of_int newtag) with
+             | Ok f' ->
+               let b = Buffer.create 256 in
+               Buffer.add_string b "ok;";
+               (match f'.f_sidxs with
+                | [] -> Buffer.add_string b "nosidx;"
+                | sx :: _ ->
+                  let x = sx.sx_box in
+                  Buffer.add_string b (Printf.sprintf "%d,%s,%s,%s,%s,%s;" (int_of_n x.b_version) (hex_of_n x.b_refid)
+                                         (hex_of_n x.b_timescale) (hex_of_n x.b_ept) (hex_of_n x.b_first_offset)
+                                         (S.concat "+" (L.map (fun r -> Printf.sprintf "%d:%s:%s" (int_of_n r.r_type)
+                                                                   (hex_of_n r.r_size) (hex_of_n r.r_dur)) x.b_refs))));
+               Buffer.add_string b (S.concat "," (L.map (fun c -> let t = int_of_n c.b_tag in
+                                                          if t = newtag then "N" else string_of_int t) f'.f_children));
+               Buffer.add_string b ";";
+               (match encode_file f' with
+                | Ok l -> Buffer.add_string b ("ok:" ^ S.concat "," (L.map (fun c ->
+                    Printf.sprintf "%c%s" (kind_char c.b_kind) (hex_of_n c.b_size)) l))
+                | Err -> Buffer.add_string b "err" | Panic -> Buffer.add_string b "panic"
+                | OutOfFuel -> Buffer.add_string b "fuel");
+               Buffer.contents b
+             | Err -> "err" | Panic -> "panic" | OutOfFuel -> "fuel")
+          | r -> "decode-" ^ class_string r in
+        if m = obs then Printf.printf "OK %s\n" id
+        else Printf.printf "MISMATCH %s update_sidx model=%s\n" id m
       | _ -> Printf.printf "BADLINE %s\n" (if S.length line > 200 then S.sub line 0 200 else line))
